@@ -147,25 +147,96 @@ def oracle(res: dict, jt: dict, ast: dict | None = None) -> list[tuple[str, str]
     return bad
 
 
-def ssbs_kind(ast: list, kind: str, what: str, jt: dict) -> str:
-    """narrow shape of a dangling jump in an SsbScript compile result, read off the statement AST:
-    - an op named like a jump-carrying op whose last argument is no jump marker (an integer written where `@label` belongs),
-    - a routine id that is defined twice (the ops of the first definition vanish, labels inside keep their offsets) or is negative"""
-    if kind != "jump_target_not_an_op":
-        return kind
-    name = what.split(": ", 1)[1].split("[", 1)[0] if ": " in what else ""
-    raw = {s["op"] for rt in ast for s in (rt["body"] or []) if "op" in s and not any(isinstance(a, dict) and "j" in a for a in s["args"][-1:])}
-    if name in raw:
-        return "ssbs_jump_op_without_trailing_marker"
+def ssbs_kind(ast: list, off: int) -> str:
+    """narrow shape of ONE dangling jump (the op at offset `off`) in an SsbScript compile result, read off the statement
+    AST.  The SsbScript compiler numbers ops in file order, so `off` is the index of the op statement in the file.
+    - ssbs_jump_op_without_trailing_marker: that very op is written without a jump marker as last argument,
+    - ssbs_routine_id_defined_twice: the op the target label stands in front of belongs to a routine whose id is defined
+      again later (its ops vanish, the label keeps its offset),
+    - otherwise the dangling jump is no known shape: jump_target_not_an_op."""
+    stream = []          # (routine position, stmt) of every statement in file order
     ids = []
     cur = -1
-    for rt in ast:
+    for pos, rt in enumerate(ast):
         h = rt["hdr"]
         cur = cur + 1 if h["k"] == "coro" else h["id"]
         ids.append(cur)
-    if len(set(ids)) != len(ids) or any(i < 0 for i in ids):
+        for st in rt["body"] or []:
+            stream.append((pos, st))
+    ops = [(pos, st) for pos, st in stream if "op" in st]
+    if not (0 <= off < len(ops)):
+        return "jump_target_not_an_op"
+    st = ops[off][1]
+    last = st["args"][-1] if st["args"] else None
+    if not (isinstance(last, dict) and "j" in last):
+        return "ssbs_jump_op_without_trailing_marker"
+    # the op the label resolves to: the next op after the last definition of the label that has an op after it
+    target_pos = None
+    seen_label = False
+    for pos, s_ in stream:
+        if "l" in s_ and s_["l"] == last["j"]:
+            seen_label = True
+        elif "op" in s_ and seen_label:
+            target_pos = pos
+            seen_label = False
+    if target_pos is not None and ids[target_pos] in ids[target_pos + 1:]:
         return "ssbs_routine_id_defined_twice"
-    return kind
+    return "jump_target_not_an_op"
+
+
+def ssbs_oracle(y: dict, jt: dict, ast: list | None) -> list[tuple[str, str]]:
+    """oracle on an SsbScript compile result; dangling jumps are classified op by op (one entry per kind)"""
+    y2 = dict(y)
+    y2["lens"] = [len(y["infos"]), len(y["coros"]), len(y["ops"])]
+    out = [(k, w) for k, w in oracle(y2, jt, None) if k != "jump_target_not_an_op"]
+    offs = {o["off"] for r in y["ops"] for o in r}
+    seen: set[str] = set()
+    for ri, r in enumerate(y["ops"]):
+        for o in r:
+            if o["name"] in jt:
+                last = o["params"][-1] if o["params"] else None
+                if isinstance(last, bool) or not isinstance(last, int) or last not in offs:
+                    kind = ssbs_kind(ast, o["off"]) if ast is not None else "jump_target_not_an_op"
+                    if kind not in seen:
+                        seen.add(kind)
+                        out.append((kind, f"routine {ri} offset {o['off']}: {o['name']}{o['params']} — last parameter {last!r} is not the offset of an op of the result"))
+    return out
+
+
+def gen_trailing_label_ast(rnd: random.Random) -> list:
+    """SsbScript AST (harness/astdump_ssbs.py format) with a label that no op follows anywhere in the file — at the very
+    end of the last routine with a body, possibly with alias routines behind it — and jump-carrying ops that refer to it.
+    The compiler must reject such a file (the label never gets an offset); accepting it leaves a dangling jump."""
+    n = rnd.randint(1, 3)
+    lbl = rnd.choice(["tail", "end_0", "label_9"])
+    others = ["m0", "m1"]
+    rts = []
+    for i in range(n):
+        body = []
+        for _ in range(rnd.randint(0, 3)):
+            c = rnd.random()
+            if c < 0.2:
+                body.append({"l": rnd.choice(others)})
+            elif c < 0.6:
+                body.append({"op": rnd.choice(["foo", "Wait", "x"]), "args": [rnd.randint(0, 9)] if rnd.random() < 0.5 else []})
+            else:
+                nm, pre = rnd.choice([("Jump", []), ("Call", []), ("Branch", [1, 2]), ("Case", [3]), ("BranchBit", [{"c": "$V"}, 1])])
+                body.append({"op": nm, "args": pre + [{"j": lbl}]})
+        rts.append({"hdr": {"k": "def", "id": i} if rnd.random() < 0.7 else {"k": "for", "id": i, "word": "actor", "target": 3}, "body": body})
+    # make every other label resolvable: define it in front of an op at the start of routine 0
+    rts[0]["body"] = [{"l": o} for o in others] + [{"op": "init", "args": []}] + rts[0]["body"]
+    if not any("op" in s_ and s_["args"] and isinstance(s_["args"][-1], dict) and s_["args"][-1].get("j") == lbl for rt in rts for s_ in rt["body"]):
+        nm, pre = rnd.choice([("Jump", []), ("Call", []), ("Branch", [1, 2])])
+        rnd.choice(rts)["body"].insert(0, {"op": nm, "args": pre + [{"j": lbl}]})
+    for rt in rts:
+        if not rt["body"]:
+            rt["body"].append({"op": "nop", "args": []})
+    rts[-1]["body"].append({"l": lbl})
+    if rnd.random() < 0.3:
+        rts[-1]["body"].append({"l": "tail2"})
+    for k in range(rnd.choice([0, 0, 1, 2])):
+        rts.append({"hdr": {"k": "def", "id": n + k}, "body": None})
+    return rts
 
 
 # ---- correspondence -----------------------------------------------------------------------------------------------------
@@ -285,7 +356,12 @@ def run(run: core.Run) -> int:
                 ok_sets.append({"infos": r["infos"], "coros": r["coros"], "ops": [[{"off": o["off"], "name": o["name"], "params": o["params"]} for o in rt] for rt in r["ops"]]})
         n_sast = 300 if quick else 3000
         sasts = [SA.gen_ast(run.rng) for _ in range(n_sast)]
-        stexts = [SA.print_ast(a, run.rng) for a in sasts] + SSBS_WITNESSES
+        tl_asts = [gen_trailing_label_ast(random.Random(run.rng.getrandbits(48))) for _ in range(60 if quick else 1500)]
+        tl_texts = [SA.print_ast(a, run.rng) for a in tl_asts]
+        stexts = [SA.print_ast(a, run.rng) for a in sasts] + tl_texts + SSBS_WITNESSES
+        # the same files through ExplorerScriptSsbCompiler (sources marked as SsbScript)
+        attr_texts = ["//?: is-ssb-script: true\n" + t for t in tl_texts[:20 if quick else 300]]
+        attr_res = compile_all(pool, attr_texts)
         sin = [{"set": s} for s in ok_sets] + [{"text": t} for t in stexts]
         chunks = [sin[i:i + 40] for i in range(0, len(sin), 40)]
         souts_raw = pool.map("harness.impl_ssbs:run_cases", chunks, timeout=180)
@@ -379,6 +455,14 @@ def run(run: core.Run) -> int:
 
     # ---- SsbScript channel -----------------------------------------------------------------------------------------------
     sstats: Counter = Counter()
+    for t, r in zip(attr_texts, attr_res):
+        if "error" in r:
+            sstats["attr_path_error:" + r["error"]] += 1
+            continue
+        sstats["attr_path_compiled"] += 1
+        for k, w in ssbs_oracle(r, jt, None):
+            n_oracle_bad += 1
+            run.violation(k, "SsbScript source through ExplorerScriptSsbCompiler: " + w, {"text": t, "ops": r["ops"]})
     s_items = [("set", s) for s in ok_sets] + [("text", t) for t in stexts]
     s_model_reqs = []
     s_model_idx = []
@@ -394,12 +478,8 @@ def run(run: core.Run) -> int:
         else:
             sstats["compiled"] += 1
             y = r["out"]
-            y2 = dict(y)
-            y2["lens"] = [len(y["infos"]), len(y["coros"]), len(y["ops"])]
-            bad = oracle(y2, jt, None)
-            if bad and "ast" in r:
-                bad = [(ssbs_kind(r["ast"], k, w, jt), w) for k, w in bad]
-            for k, w in bad[:1]:
+            bad = ssbs_oracle(y, jt, r.get("ast"))
+            for k, w in bad:
                 n_oracle_bad += 1
                 run.violation(k, "SsbScript: " + w, {"ssbscript_text": r.get("text") or x, "ops": y["ops"]})
             if kind == "text" and x in SSBS_WITNESSES and not bad:
@@ -467,10 +547,31 @@ def replay(run: core.Run, path: str) -> int:
     data = json.load(open(path))
     rp = data["replay"]
     jt = impl_c03.jump_table()
+    if "ssbscript_text" in rp and isinstance(rp["ssbscript_text"], str):
+        from .. import impl_ssbs
+        r = impl_ssbs.compile_text(rp["ssbscript_text"])
+        print(rp["ssbscript_text"])
+        if "comp_exc" in r:
+            print("SsbScript compiler raises", r["comp_exc"]["cls"], r["comp_exc"]["msg"])
+            return 0
+        bad = ssbs_oracle(r["out"], jt, r.get("ast"))
+        for k, w in bad:
+            print("VIOLATION-REPLAY", k, w)
+        return 1 if bad else 0
     if "text" not in rp:
         print("replay file carries no program:", data.get("what"))
         return 1
     text = rp["text"]
+    if text.startswith("//?: is-ssb-script"):
+        res = impl_c03.compile_ex({"text": text})
+        print(text)
+        if "error" in res:
+            print("compiler raises", res["error"], res.get("msg"))
+            return 0
+        bad = ssbs_oracle(res, jt, None)
+        for k, w in bad:
+            print("VIOLATION-REPLAY", k, w)
+        return 1 if bad else 0
     res = impl_c03.compile_ex({"text": text})
     print(text)
     if "error" in res:
